@@ -4,7 +4,7 @@ from vlib.genidx import genidx_step   # tie A: the index / hyperslab / util-fn f
 
 CHECK = Check(
     "C08",
-    props_modules=["OW.Props.C08"],
+    props_modules=["OW.Props.C08", "OW.Props.C08Seq", "OW.Props.C08Slice"],
     pre_steps=[lockgraph_step, genidx_step],
     families=[
         Family("H5U"),   # sliceSize / makeHyperslab through io/verif_export.go, exact integer comparison
@@ -32,12 +32,34 @@ CHECK = Check(
         "exclusively/shared during its whole body); dynamic cross-check: the library model's Hook asserts through "
         "io.VerifLockState (TryLock/TryRLock) that the lock is held at every library call of every H5 case, with "
         "concurrent callers in the thorough tier",
+        "lock discipline, what the check does NOT exclude (liveness, outside the stated safety clause): lockCheck accepts a "
+        "function that holds the shared lock and calls a function that takes the exclusive lock (and exclusive->exclusive, "
+        "shared->shared) — with Go's non-reentrant sync.RWMutex that is a self-deadlock; witness: last example of "
+        "OW/Props/C08Seq.lean (lockCheck [R shared -> W exclusive] = true). No function of the current package io nests "
+        "lock-taking functions (Exists takes no lock and calls the shared-lock listers one after the other)",
+        "lock discipline, scope: the graph is package io only. `hdf5.DisplayErrors(false)` in cmd/ow-sim/main.go:33 is a "
+        "library call made outside package io without the package lock; it is the second statement of main(), before any "
+        "goroutine is started (single-threaded at that point), and is not in the lock graph",
         "Go int as Int (no overflow), uint(x) for -2^63 <= x < 2^63; element values of the correspondence are small "
         "non-negative integers representable in all 8 element types",
     ],
     assumptions=[
         "load_selection: one selection entry per dimension, each nil or [start, stop, step] with start >= 0, step >= 1 "
-        "(any stop); datasets hold as many elements as their shape says (WF, preserved by every operation)",
+        "(any stop); datasets hold as many elements as their shape says (WF; proved to be kept by EVERY outcome of every "
+        "operation: write/writeSlice/create_preserves_WF, and along every sequence of calls from no file or a well-formed "
+        "file: ops_preserve_WF, ops_trace — so WF is a hypothesis on the INITIAL file only)",
+        "extents >= 1 for the SOURCE views of write_load_roundtrip / writeSlice_footprint (Reach => Pos: every extent of a "
+        "reachable view is >= 1). Sources with a zero extent (ow-sim makes data.NewArray3DFloat64(0,0,0) for models without "
+        "inputs, simulation_model_reference.go:167) are covered by separate theorems ABOUT THE MODEL only: "
+        "write_empty_panics (Write of NewArray(dims) with a 0 extent panics index-out-of-range at data.Get(NewIndex(0)), "
+        "after the file was opened/created, before any dataset is touched), writeSlice_empty_noop (WriteSlice of any source "
+        "with a 0 extent whose Unroll() returns: block contains 0 -> library selects nothing -> nil, file exactly as "
+        "before). The H5 correspondence draws NO source view with a zero extent (fam_h5.go addArr: 'no view has an extent "
+        "0'), so for these two the agreement of model and Go code is NOT checked on every run: it rests on reading "
+        "io/hdf5.go and the gonum wrapper, and on three hand-made programs replayed once through the real io + hdf5stub "
+        "and the Lean driver (0x0x0 and 2x0x3 float64 sources: create, wslice -> ok and file unchanged, write -> panic "
+        "index-out-of-range with the file created; identical impl/model lines). DATASET shapes with a zero extent (Create [count,0,0]) are inside create_new (0 <= x), "
+        "inside load_selection, and ARE drawn by the correspondence",
         "write_load_roundtrip / writeSlice_footprint: the source view is reachable by in-bounds slicing of a root array "
         "(Reach) on a well-windowed storage (ArrOK); Write returned nil; the block lies inside the dataset (a block outside "
         "is refused by the library and WriteSlice swallows that error: outside the stated property, modelled and compared)",
@@ -47,6 +69,17 @@ CHECK = Check(
         "sliceSizeFloor_drops_last is the proved counter-example for the code before the repair, replay "
         "/verif/replays/known/C08-6552b9c.json); rank-0 shapes, negative extents, compress=true and datasets "
         "above 2^40 bytes are outside the model",
+    ],
+    partial=[
+        "ops_trace: per-position statements only — WF after every prefix and OpSpec (T2-T5') for the call at every "
+        "position on the file the earlier calls left; the composition 'what an earlier Write/WriteSlice stored is what a "
+        "later Load returns across intervening calls on other paths' is not stated (it follows one call at a time from the "
+        "frame clauses of writeSlice_footprint / create_new)",
+        "load_selection_eq_nd_slice (Load with a selection = OW/Nd Slice(starts, counts, steps) of the loaded full array, "
+        "read in row-major order) needs every extent of the dataset >= 1 and a selection that picks AT LEAST ONE index in "
+        "every dimension; a selection that is empty in some dimension (stop <= start, start beyond the extent) returns an "
+        "array with a zero extent — covered by load_selection in the file model's words, but not a Reach-able view of "
+        "OW/Nd, so no Nd.slice statement for it",
     ],
 )
 
@@ -58,7 +91,10 @@ META = dict(
          "returns exactly the row-major gather of the full array at those indices; Write then Load returns the shape and "
          "the row-major elements of ANY reachable source view (uses C02 unroll_spec); WriteSlice changes exactly the block "
          "loc+[0,shape) and nothing else in the file; Create on an existing dataset leaves the file unchanged and refuses "
-         "a different shape; a lock-discipline checker over call graphs is proved sound for all graphs and evaluated by the "
+         "a different shape; a new dataset reads as zeros; every outcome of every operation keeps the file well-formed and "
+         "ONE trace theorem over lists of operations (ops_trace: WF after every prefix, the per-operation statements at every "
+         "position); Load with a selection = the OW/Nd Slice of the loaded full array (load_selection_eq_nd_slice); sources "
+         "with a zero extent: Write panics, WriteSlice is a no-op (model only); a lock-discipline checker over call graphs is proved sound for all graphs and evaluated by the "
          "kernel on the call graph REGENERATED from io/*.go on every run. Model tied to the real code on every run "
          "(sliceSize/makeHyperslab enumerated; random programs of io calls over 8 element types and 5 source layouts against "
          "a pure-Go model of libhdf5, lock state asserted at every library call, concurrent callers in thorough).",
